@@ -45,6 +45,10 @@ class Conn(object):
         self._real.close()
         self._rec.log('close_conn')
 
+    def __getattr__(self, name):
+        # everything else (total_changes, in_transaction, isolation_level, execute ...) is the real connection's
+        return getattr(self._real, name)
+
 
 class Cur(object):
     def __init__(self, rec, real, conn):
